@@ -1,9 +1,7 @@
 SPECIFICATION Spec
 CONSTANTS
-  NStmt = 3
+  NStmt = 2
   Patterns <- PatQuick
   TailPatterns <- TailQuick
   LeadModes <- LeadAll
   TrailModes <- TrailAll
-INVARIANTS Accept Reject AllClausesSeen
-CHECK_DEADLOCK FALSE
